@@ -48,6 +48,37 @@ func genC07(r *Rng, tier string, idx int) *Plan {
 		n = r.Range(4, 40)
 	}
 	uniq := 0
+	if idx%4 == 3 {
+		// snapshot/restore sub-profile: writes (with deadlines), a raft snapshot on a follower, its crash, more writes, restart
+		p.Profile = "snaprestore"
+		victim := int64(r.Range(1, nodes-1))
+		w := func(k int) {
+			for i := 0; i < k; i++ {
+				a := g.Cmd(r)
+				if r.Chance(0.35) {
+					a = specByName[Pick(r, []string{"SETEXAT", "EXPIREAT", "SET", "HSET"})].Gen(r, g)
+				}
+				p.Ops = append(p.Ops, Op{C: 0, Args: a, S: "leader-relative"})
+			}
+		}
+		w(r.Range(2, 8))
+		p.Ops = append(p.Ops, Op{Kind: "steps", N: 30})
+		p.Ops = append(p.Ops, Op{Kind: "snapshot", N: victim})
+		p.Ops = append(p.Ops, Op{Kind: "steps", N: int64(r.Range(5, 30))})
+		if r.Chance(0.5) {
+			w(r.Range(1, 3))
+		}
+		p.Ops = append(p.Ops, Op{Kind: "crash", N: victim})
+		w(r.Range(0, 4))
+		if r.Chance(0.3) {
+			p.Ops = append(p.Ops, Op{Kind: "advance", N: int64(Pick(r, []int{10, 1000}))})
+		}
+		p.Ops = append(p.Ops, Op{Kind: "restart", N: victim})
+		p.Ops = append(p.Ops, Op{Kind: "steps", N: int64(r.Range(5, 40))})
+		w(r.Range(0, 3))
+		p.Dice = drawDice(r, 512)
+		return p
+	}
 	for i := 0; i < n; i++ {
 		switch x := r.Intn(100); {
 		case x < 55:
@@ -99,6 +130,8 @@ type c07Run struct {
 	sawRand bool     // a random-by-design command was committed
 	sawAbs  bool     // a command with an absolute deadline was committed
 	snapRestart bool // the plan takes raft snapshots and restarts nodes
+	randKeys    map[string]bool // keys named by a random-by-design command
+	expiredKeys map[string]bool // "db/key" that carried a deadline which has passed at some check
 	adv     bool     // the clock was advanced after the first commit
 	faults  []string
 }
@@ -401,6 +434,7 @@ func (a *c07Run) body() {
 			a.steps(int(op.N))
 		}
 		a.checkPanics()
+		a.noteExpired()
 	}
 	if a.o.Sig != "" {
 		return
@@ -468,7 +502,7 @@ func (a *c07Run) body() {
 	ref := DataMap(a.insts[a.leaderIdx()].DB.VerifDump(), false)
 	got := DataMap(inst.DB.VerifDump(), false)
 	if !mapsEqual(ref, got) && a.o.Sig == "" {
-		a.fail(a.divergeClass("replay-differs"), fmt.Sprintf("replaying the committed log (%d entries) on a fresh node gives a different dataset: %s; log: %v", len(a.c.log), DiffData(got, ref, "replayed", "cluster", 4), trimCmds(a.logCommands())))
+		a.fail(a.divergeClass("replay-differs", got, ref), fmt.Sprintf("replaying the committed log (%d entries) on a fresh node gives a different dataset: %s; log: %v", len(a.c.log), DiffData(got, ref, "replayed", "cluster", 4), trimCmds(a.logCommands())))
 	}
 	if len(a.c.log) >= 2 {
 		a.o.Trivial = false
@@ -480,14 +514,51 @@ func trimCmds(c [][]string) string {
 	return trunc(s, 600)
 }
 
-// divergeClass names the known root causes a divergence can come from.
-func (a *c07Run) divergeClass(base string) string {
+// divergeClass attributes a divergence to a recorded root cause only if EVERY differing key is explained by it:
+// deadline-only differences after a relative expiration, keys whose deadline has passed on the clock,
+// keys that were the target of a random-by-design command. Anything else keeps the plain signature.
+func (a *c07Run) divergeClass(base string, x, y map[string]string) string {
+	now := time.Now().UnixMilli()
+	body := func(v string) (string, int64) {
+		if i := strings.LastIndex(v, " @"); i >= 0 {
+			ms, _ := strconv.ParseInt(v[i+2:], 10, 64)
+			return v[:i], ms
+		}
+		return v, 0
+	}
+	keys := map[string]bool{}
+	for k := range x {
+		keys[k] = true
+	}
+	for k := range y {
+		keys[k] = true
+	}
+	allRel, allExpired, allRand, n := true, true, true, 0
+	for k := range keys {
+		if x[k] == y[k] {
+			continue
+		}
+		n++
+		bx, dx := body(x[k])
+		by, dy := body(y[k])
+		if !(x[k] != "" && y[k] != "" && bx == by && dx != 0 && dy != 0) {
+			allRel = false
+		}
+		if !((dx != 0 && dx <= now) || (dy != 0 && dy <= now) || a.expiredKeys[k]) {
+			allExpired = false
+		}
+		if !a.randKeys[k[strings.IndexByte(k, '/')+1:]] {
+			allRand = false
+		}
+	}
 	switch {
-	case a.sawRand:
+	case n == 0:
+		return base
+	case allRand && a.sawRand:
 		return base + "/random-command"
-	case a.sawRel:
+	case allRel && a.sawRel:
 		return base + "/relative-expiry"
-	case a.sawAbs:
+	case allExpired && (a.sawAbs || a.sawRel):
 		return base + "/expired-at-apply-time"
 	}
 	return base
@@ -510,7 +581,7 @@ func (a *c07Run) converged(when string) {
 				a.fail("snapshot-retyped", fmt.Sprintf("%s: %s and %s differ only by the type loss of the JSON raft snapshot one of them was restored from: %s", when, refName, nodeID(j), DiffData(ref, m, refName, nodeID(j), 4)))
 				return
 			}
-			a.fail(a.divergeClass("replicas-diverge"), fmt.Sprintf("%s: %s and %s hold different datasets although both applied the whole log (%d entries): %s; log: %v",
+			a.fail(a.divergeClass("replicas-diverge", ref, m), fmt.Sprintf("%s: %s and %s hold different datasets although both applied the whole log (%d entries): %s; log: %v",
 				when, refName, nodeID(j), len(a.c.log), DiffData(ref, m, refName, nodeID(j), 4), trimCmds(a.logCommands())))
 			return
 		}
@@ -557,6 +628,12 @@ func (a *c07Run) command(i int, op Op) {
 	}
 	if sp := specByName[name]; sp != nil && sp.Random {
 		a.sawRand = true
+		if a.randKeys == nil {
+			a.randKeys = map[string]bool{}
+		}
+		if len(op.Args) > 1 {
+			a.randKeys[op.Args[1]] = true
+		}
 	}
 	if setsAbsoluteDeadline(op.Args) {
 		a.sawAbs = true
@@ -745,4 +822,24 @@ func lossyCommand(args []string) bool {
 		}
 	}
 	return false
+}
+
+// noteExpired remembers the keys that carry a deadline the clock has passed (on any live node).
+func (a *c07Run) noteExpired() {
+	now := time.Now().UnixMilli()
+	for j := 0; j < a.nodes; j++ {
+		if !a.alive[j] {
+			continue
+		}
+		for db, data := range a.insts[j].DB.VerifDump().DBs {
+			for k, e := range data {
+				if e.ExpireAt != 0 && e.ExpireAt <= now {
+					if a.expiredKeys == nil {
+						a.expiredKeys = map[string]bool{}
+					}
+					a.expiredKeys[strconv.Itoa(db)+"/"+k] = true
+				}
+			}
+		}
+	}
 }
